@@ -20,8 +20,16 @@ CLAIMED = {
  "C09": ("One inductive step of the XDS demultiplexer from an arbitrary state satisfying a stated invariant, for every byte pair (first byte case-split over every dispatch class, second byte symbolic), is shown to be "
          "exactly the EIA-608 reassembly step (start/continue/content/terminator/parity error/caption interruption), to deliver iff the checksum is good with the packet's class, type, length <= 32 and bytes, and to "
          "touch no other packet; the invariant holds initially. Same step for the service decoder's own separator and memory safety of its XDS decoder for every type/length (thorough tier).", "0.3 / 5 C09"),
+ "C11": ("Inductive decomposition around a stated list invariant (NULL-terminated list of malloc'ed records with pairwise different (handler, user_data), masks != 0, event_mask == OR of masks, cursor NULL, mutex free): "
+         "one symbolic register/unregister/add/remove call from every such list (outside delivery and, with the cursor lemma, inside a callback) yields exactly the documented list; one vbi_send_event of any type with 1-2 "
+         "nested calls from callbacks satisfies the full delivery contract against a shadow list of registration instances (exactly once, own user pointer, registration order, added-during-delivery at most once, "
+         "never after removal, no freed record touched, event_mask == OR after every call, Teletext reset exactly when the TTX_PAGE bit appears). Lists up to 3-5 records.", "0.3 / 5 C11"),
  "C12": ("Every codec pair (VPS, DVB PDC descriptor, 8/30 format 1 and 2) is executed symbolically over its full input space (all 13/5/42-byte buffers, all field values, every single-bit error position) "
          "and compared with independent reference encoders/decoders written from the standards; no enumeration, no sampling; bounded only by the fixed packet sizes.", "5 C12"),
+ "C14": ("vbi_pil_lto_to_time, vbi_pil_to_time (tz NULL/UTC/named), vbi_pty_validity_window, vbi_pil_lto_validity_window and vbi_pil_validity_window are executed on all 2^20 PILs, every second of local years "
+         "1971..2105 (thorough 1971..2420, plus the 1969/70 edge), offsets up to +-16 h, ambient TZ set/unset, with a relational proleptic-Gregorian calendar model (itself proved monotone/injective by lemma "
+         "obligations and cross-checked natively against glibc) and an abstract TZ cell: result has the PIL's fields in the nearest year, Feb 29 only in leap years, -1 exactly for invalid PILs/environment failures, "
+         "window lengths per EN 300 231, and after every call on every exit the TZ cell and libc's active zone are what they were.", "0.3 / 5 C14"),
  "C13": ("Every reception history of bounded length (4-7 receptions drawn from two arbitrary symbolic values, symbolic pattern) per carrier (VPS, 8/30 format 1, WSS 625) is executed through the real decoder "
          "functions and compared with a history-based reference of the debounce rule (announce at the second consecutive identical reception / after three WSS repeats with good parity, only on change), "
          "event payloads against independent field extraction, NETWORK event and cache drop exactly on station change.", "0.3 / 5 C13"),
